@@ -92,6 +92,10 @@ void PDU::copy_inner_pdu(const PDU& pdu) {
     if (pdu.inner_pdu()) {
         inner_pdu(pdu.inner_pdu()->clone());
     }
+    else {
+        // Don't keep our old inner PDU around if the other one has none
+        inner_pdu(0);
+    }
 }
 
 void PDU::prepare_for_serialize() {
